@@ -12,7 +12,7 @@ use serde_repr::{Deserialize_repr, Serialize_repr};
 
 use crate::error::{ExpectedPositiveValue, FontInfoErrorKind, FontInfoLoadError};
 use crate::shared_types::PUBLIC_OBJECT_LIBS_KEY;
-use crate::{FormatVersion, Guideline, Identifier, Plist};
+use crate::{FormatVersion, Guideline, Identifier, Line, Plist};
 
 /// A signed integer.
 pub type Integer = i32;
@@ -871,6 +871,13 @@ impl FontInfo {
                 if let Some(id) = guideline.identifier() {
                     if !identifiers.insert(id.clone()) {
                         return Err(FontInfoErrorKind::DuplicateGuidelineIdentifiers);
+                    }
+                }
+                // The serializer refuses such an angle, but only after `Font::save` has
+                // already removed the target directory.
+                if let Line::Angle { degrees, .. } = guideline.line {
+                    if !(0.0..=360.0).contains(&degrees) {
+                        return Err(FontInfoErrorKind::InvalidGuidelineAngle);
                     }
                 }
             }
